@@ -22,6 +22,7 @@ EXPLANATION = (
     "each function, class, nested class, method, property (read-only and read/write), overload, class attribute "
     "(annotated, inferred, tuple target), constructor-assigned instance attribute, enum and enum member the source "
     "contains is registered exactly once with its owner; repeated assignments register no second attribute."
+    ' G_ast includes functions inside module-level if blocks, overloaded static methods with decorated implementation and constructors with item / nested / starred / local / foreign-object assignment targets (only self.<name> targets are attributes).'
 )
 ASSUMPTIONS = [
     "analyser side: the real walker+visitor on the validated mypy shim over the module-tree grammar G_ast (harness/gast.py)",
